@@ -23,9 +23,11 @@ SHARD_TIMEOUT = {'quick': 900, 'thorough': 3400}
 ENV = {'XLA_FLAGS': '--xla_force_host_platform_device_count=8'}
 MIN_HITS = {
     'quick': {'mon:oracle': 300, 'mon:diag': 300, 'mon:sanitize': 300, 'variant:jit': 60, 'variant:perm': 60,
-              'variant:debug': 40, 'variant:pmap': 40, 'mon:empty': 5, 'mon:ownkey': 10, 'empty-client': 20},
+              'variant:debug': 40, 'variant:pmap': 40, 'mon:empty': 5, 'mon:ownkey': 10, 'empty-client': 20,
+              'empty-round-after-nonempty-round:stateful-server': 4},
     'thorough': {'mon:oracle': 6000, 'mon:diag': 6000, 'mon:sanitize': 6000, 'variant:jit': 1000, 'variant:perm': 1000,
-                 'variant:debug': 600, 'variant:pmap': 600, 'mon:empty': 100, 'mon:ownkey': 100, 'empty-client': 400},
+                 'variant:debug': 600, 'variant:pmap': 600, 'mon:empty': 100, 'mon:ownkey': 100, 'empty-client': 400,
+                 'empty-round-after-nonempty-round:stateful-server': 80},
 }
 TECHNIQUE = 'runtime monitoring: float64 reference-model oracle + backend/permutation differential + input-state sanitizer over seeded multi-round histories'
 LEVEL_TEXT = ('Every round of every generated history is executed by the real federated_averaging on three backends and judged '
@@ -70,6 +72,21 @@ def gen_history(rng, quick):
   for _ in range(rounds):
     k = int(rng.randint(1, n_clients + 1))
     cohorts.append(sorted(rng.choice(n_clients, size=k, replace=False).tolist()))
+  if rng.rand() < 0.15 and n_clients >= 3:
+    # forced class: a round whose whole cohort is empty, AFTER a round that moved the server (stateful server optimizers
+    # must still advance on the zero mean delta), followed by a normal round.
+    sizes[0] = sizes[1] = 0
+    if all(s == 0 for s in sizes[2:]):
+      sizes[2] = 5
+    if ne is None:
+      hp['num_epochs'] = 1
+    nonempty = [i for i, s in enumerate(sizes) if s > 0]
+    cohorts = [sorted(set(nonempty[:3] + [0])), [0, 1], sorted(set(nonempty[:2] + [1]))]
+    if rng.rand() < 0.5:
+      cohorts.append([1])
+    rounds = len(cohorts)
+    if sspec[0] == 'sgd' and rng.rand() < 0.7:
+      sspec = [('momentum', slr, 0.9), ('adam', 0.05)][rng.randint(2)]
   return dict(dim=dim, kind=kind, sizes=sizes, cspec=cspec, sspec=sspec, hp=hp, rounds=rounds, cohorts=cohorts,
               nd=int(rng.randint(1, 9)), init_seed=int(rng.randint(0, 2**31 - 1)))
 
@@ -219,6 +236,10 @@ def run_history(ctx, fedjax, jax, jnp, h, rng):
   klass = [f"copt={h['cspec'][0]}", f"sopt={h['sspec'][0]}"]
   if all(s == 0 for s in h['sizes']):
     klass.append('all-empty-population')
+  if any(all(h['sizes'][i] == 0 for i in c) for c in h['cohorts'][1:]) and any(h['sizes'][i] for i in h['cohorts'][0]):
+    klass.append('empty-round-after-nonempty-round')
+    if h['sspec'][0] != 'sgd':
+      klass.append('empty-round-after-nonempty-round:stateful-server')
   if discarded:
     klass.append('discarded')
   key = (tuple(h['sizes']), tuple(sorted(h['hp'].items(), key=str)), h['cspec'], h['sspec'], h['rounds'],
